@@ -333,7 +333,8 @@ pub fn cases(ctx: &Ctx) -> Vec<Case> {
             desc: json!({"bucket": bucket, "files": files.iter().map(|f| json!({"class": f.class, "ts": f.ts, "inst": f.inst})).collect::<Vec<_>>(),
                           "accepted_policy": accepted, "ignore_sop_class": ignore, "never_transcode": never, "concurrency": conc, "max_pdu": max_pdu,
                           "associations": assocs.len(), "contexts": pcs0, "sent": per_file.iter().map(|v| v.iter().map(|x| x.1).collect::<Vec<_>>()).collect::<Vec<_>>()}),
-            key: format!("{:?}|{:?}|{}{}", files.iter().map(|f| (&f.class, &f.ts)).collect::<Vec<_>>(), pcs0, ignore, never),
+            // context ids are left out of the key: the tool numbers its proposals in HashSet order, which changes per process
+            key: format!("{:?}|{:?}|{}{}", files.iter().map(|f| (&f.class, &f.ts)).collect::<Vec<_>>(), pcs0.iter().map(|p| (&p.1, &p.2)).collect::<Vec<_>>(), ignore, never),
             oracle,
         });
         let _ = std::fs::remove_dir_all(&dir);
